@@ -79,6 +79,11 @@ impl MeshEdges<'_> {
         // Finally, extend the boundary vertices into the interior of the layout.
         let uv = extend_curve(&a_lu, &aii_lu, &aib, &uvb, n_vert, i_bound, &i_inner)?;
 
+        // Degenerate (zero-area) faces give infinite cotangent weights
+        if uv.iter().any(|row| !row[0].is_finite() || !row[1].is_finite()) {
+            return Err("Flattening produced non-finite coordinates (degenerate faces?)".into());
+        }
+
         Ok(uv.iter().map(|row| Point2::new(row[0], row[1])).collect())
     }
 }
